@@ -1,3 +1,11 @@
-import UtilModel.Core.LTS
-open UtilModel
+import UtilModel.RefCount.Props
+open UtilModel UtilModel.RefCount
 #print axioms UtilModel.accepts_sound
+#print axioms UtilModel.accepted_satisfies
+#print axioms UtilModel.Chain.chain_one_running
+#print axioms RefCount.reachable_inv
+#print axioms RefCount.progress_inv
+#print axioms RefCount.released_restarts
+#print axioms RefCount.one_resolver_running
+#print axioms RefCount.no_panic
+#print axioms RefCount.quiescent_no_pending_api
